@@ -1,6 +1,7 @@
 import Driver.Wire
 import Driver.WireSpec
 import Driver.CursorDrv
+import TinsModel.Gen.EntryPoints
 /- property C01: model mode = the shared wire driver + the stream-model driver; spec mode = WireSpec.spec01 -/
 namespace Driver.C01
 open Driver
@@ -23,12 +24,43 @@ def step (st : St) (line : String) : St × String :=
 
 def initModel : St := {}
 
+/-! ### the entry-point sweep (harness/c01_entry.cpp): `entry <key without spaces> <hex> [args]`
+
+  C01's statement for one call: the function yields a value (`ok`, or `null` from a dispatcher that does not know the tag)
+  or raises `malformed_packet`; never anything else.  For the functions that are not packet parsers but typed accessors
+  of part of a packet (option payload decoders, DUIDs, SOA data, RSN information …) any other libtins exception is
+  allowed as well.  Which rows are packet parsers is read from the generated table: the owner derives from `PDU`, or the
+  function is one of the dispatchers / allocators of namespace `Internals` that hand back a `PDU*`. -/
+
+def entryOpKey (e : Tins.Gen.EntryPoints.EntryPoint) : String := e.key.replace " " ""
+
+def yieldsPacket (e : Tins.Gen.EntryPoints.EntryPoint) : Bool := e.isPdu || e.owner == "Internals"
+
+/-- `vh::exc_name` of the exception classes of include/tins/exceptions.h (`tins:<typeid>` = another class derived from
+    `exception_base`) -/
+def libtinsExceptions : List String :=
+  ["malformed_packet", "malformed_option", "option_not_found", "invalid_domain_name", "invalid_address", "field_not_present",
+   "invalid_option_value", "option_payload_too_large", "serialization_error", "pdu_not_found", "pdu_not_serializable",
+   "bad_tins_cast", "dns_decompression_pointer_loops", "dns_decompression_pointer_out_of_bounds"]
+
+def entrySpec (key out : String) : String :=
+  match Tins.Gen.EntryPoints.all.find? (fun e => entryOpKey e == key) with
+  | none => s!"violates entry-unknown-key {key}"
+  | some e =>
+    if out == "ok" || out == "null" || out == "throw malformed_packet" then "ok"
+    else if out.startsWith "throw " then
+      let x := (out.drop 6).toString
+      if !yieldsPacket e && (libtinsExceptions.contains x || x.startsWith "tins:") then "ok"
+      else s!"violates entry-exception {x}"
+    else s!"violates entry-outcome {out}"
+
 /-- stream ops: the oracle is `cursor_safe` itself — only malformed_packet / serialization_error may be thrown -/
 def specStep (st : WireSpec.SState) (line : String) : WireSpec.SState × String :=
   match line.splitOn " ||| " with
   | [op, out0] =>
     let out := out0.trimAscii.toString
     match words op with
+    | "entry" :: key :: _ => (st, entrySpec key out)
     | w :: _ =>
       if CursorDrv.isCursorOp w then
         if out.startsWith "ok" || out == "throw malformed_packet" || out == "throw serialization_error" then (st, "ok")
